@@ -10,8 +10,23 @@ For a scalar function F(t) with F(0)=f0 and an analytic derivative `an`:
 import numpy as np
 
 
-def compare(F, f0, an, scale, h=1e-4, floor_rel=1e-7):
-    """Returns (status, info); status in {'ok', 'kink', 'bad', 'nonfinite'}"""
+def compare(F, f0, an, scale, h=1e-4, floor_rel=1e-7, retry_h=None):
+    """Returns (status, info); status in {'ok', 'kink', 'bad', 'nonfinite'}.
+
+    retry_h: for piecewise-linear objectives (TV, Wasserstein) a direction may cross *many* tiny kinks within h (near-uniform
+    predictions: thousands of |differences| close to zero); the one-sided slopes then converge linearly, which looks like
+    curvature to the kink filter while the central difference is biased by O(h). A mismatch at h is therefore re-examined at
+    the much smaller retry_h and only reported if it persists (a wrong gradient is wrong at every step size)."""
+    status, info = _compare(F, f0, an, scale, h, floor_rel)
+    if status == "bad" and retry_h is not None:
+        status2, info2 = _compare(F, f0, an, scale, retry_h, floor_rel)
+        if status2 != "bad":
+            info2["first_scale"] = info
+            return status2, info2
+    return status, info
+
+
+def _compare(F, f0, an, scale, h, floor_rel):
     fp, fm, fp2, fm2 = F(h), F(-h), F(h / 2), F(-h / 2)
     vals = np.array([fp, fm, fp2, fm2, f0, an], dtype=float)
     if not np.all(np.isfinite(vals)):
